@@ -483,6 +483,9 @@ class ServermapUpdater:
         # servermap, plus "enough" others.
 
         self._queries_completed = 0
+        # servers whose answer has arrived but whose shares are still being
+        # validated (that continues in later reactor turns)
+        self._answers_in_process = set()
 
         sb = self._storage_broker
         # All of the servers, permuted by the storage index, as usual.
@@ -662,6 +665,7 @@ class ServermapUpdater:
         now = time.time()
         elapsed = now - started
         def _done_processing(ignored=None):
+            self._answers_in_process.discard(server)
             self._queries_outstanding.discard(server)
             self._servermap.mark_server_reachable(server)
             self._must_query.discard(server)
@@ -672,6 +676,7 @@ class ServermapUpdater:
             self._status.add_per_server_time(server, "late", started, elapsed)
             return
         self._status.add_per_server_time(server, "query", started, elapsed)
+        self._answers_in_process.add(server)
 
         if datavs:
             self._good_servers.add(server)
@@ -1089,6 +1094,14 @@ class ServermapUpdater:
 
         MAX_IN_FLIGHT = 5
         if self.mode == MODE_READ:
+            if self._answers_in_process:
+                # some answers that we already hold have not been added to
+                # the servermap yet: they may carry a newer version. Each of
+                # them calls us again when it is done.
+                self.log("%d answers still being processed: waiting"
+                         % len(self._answers_in_process),
+                         level=log.NOISY, parent=lp)
+                return
             # if we've queried k+epsilon servers, and we see a recoverable
             # version, and we haven't seen any unrecoverable higher-seqnum'ed
             # versions, then we're done.
